@@ -44,7 +44,7 @@ def project(case, outs):
         if r[0] == 8:
             last[(r[2], r[3])] = i
     keep = set(last.values())
-    others = [r for i, r in enumerate(outs) if r[0] in (2, 4, 11, 16) or (r[0] == 5 and r[4] == 1) or (r[0] == 13 and r[2] == 11) or (r[0] == 3 and r[4] in (11, 20, 21))]
+    others = [r for i, r in enumerate(S.with_unprotected_probes(outs)) if r[0] in (2, 4, 11, 16, 18, 19) or (r[0] == 5 and r[4] == 1) or (r[0] == 13 and r[2] == 11) or (r[0] == 3 and r[4] in (11, 20, 21))]
     probes = [r for i, r in enumerate(outs) if r[0] == 8 and i in keep]
     end = [r for r in outs if r[0] == 10]
     return others + probes + end
